@@ -1,5 +1,6 @@
 import PharmpyProofs.C19.Lemmas
 import PharmpyModel.C19.Spec
+import PharmpyModel.C19.Stats
 /-
   C19 — Ranking, selection criteria and result statistics follow their
   definitions.  Property theorems only.
@@ -670,6 +671,59 @@ theorem categorize_spec (omegas : List String) (vs : List Vis) (hn : omegas.Nodu
   rw [h1, h2]
   simp only [List.not_mem_nil, false_or]
   grind
+
+/-! ## resampling statistics -/
+
+theorem stats_sum_perm {l₁ l₂ : List Rat} (h : l₁.Perm l₂) : Stats.sum l₁ = Stats.sum l₂ := by
+  induction h with
+  | nil => rfl
+  | cons x _ ih => simp only [Stats.sum, List.foldr_cons] at *; rw [ih]
+  | swap x y l => simp only [Stats.sum, List.foldr_cons]; grind
+  | trans _ _ ih1 ih2 => rw [ih1, ih2]
+
+/-- **Permutation invariance.**  Mean, variance (stderr², shrinkage) of a column do
+    not depend on the order of the replicates. -/
+theorem stats_mean_var_perm {l₁ l₂ : List Rat} (h : l₁.Perm l₂) :
+    Stats.mean l₁ = Stats.mean l₂ ∧ Stats.var l₁ = Stats.var l₂ := by
+  have hm : Stats.mean l₁ = Stats.mean l₂ := by
+    unfold Stats.mean; rw [stats_sum_perm h, h.length_eq]
+  refine ⟨hm, ?_⟩
+  have hsq : ∀ l : List Rat, List.zipWith (· * ·) l l = l.map (fun d => d * d) := by
+    intro l; induction l with
+    | nil => rfl
+    | cons a l ih => simp
+  unfold Stats.var Stats.cov Stats.cross
+  rw [hsq, hsq, h.length_eq]
+  congr 1
+  apply stats_sum_perm
+  apply List.Perm.map
+  unfold Stats.dev
+  rw [hm]
+  exact h.map _
+
+/-- The jackknife covariance matrix `(N − 1)/N Σ δ δᵀ` is symmetric. -/
+theorem jackknife_cov_symmetric (xs ys : List Rat) (hlen : xs.length = ys.length) :
+    Stats.jack xs ys = Stats.jack ys xs := by
+  have hz : ∀ a b : List Rat, List.zipWith (· * ·) a b = List.zipWith (· * ·) b a := by
+    intro a b
+    induction a generalizing b with
+    | nil => cases b <;> rfl
+    | cons x a ih => cases b with
+      | nil => rfl
+      | cons y b => simp only [List.zipWith_cons_cons]; rw [ih b, Rat.mul_comm]
+  unfold Stats.jack Stats.cross
+  rw [hz, hlen]
+
+/-- Defining formulas (as reported by the tools): bias = mean − original estimate,
+    RSE² = stderr² / mean², eta shrinkage = 1 − var(eta)/omega, individual
+    shrinkage = var_i(eta)/omega, jackknife entry = cross product × (N−1)/N. -/
+theorem statistics_defs (xs ys : List Rat) (orig omega diag : Rat) :
+    (Stats.colStats xs orig).bias = Stats.mean xs - orig ∧
+    (Stats.colStats xs orig).rse2 = Stats.var xs / (Stats.mean xs * Stats.mean xs) ∧
+    Stats.etaShrinkage xs omega = 1 - Stats.var xs / omega ∧
+    Stats.indShrinkage diag omega = diag / omega ∧
+    Stats.jack xs ys = Stats.cross xs ys * ((xs.length : Rat) - 1) / (xs.length : Rat) :=
+  ⟨rfl, rfl, rfl, rfl, rfl⟩
 
 /-! ## non-vacuity -/
 
